@@ -358,8 +358,8 @@ def oracle(spec, mol, mlist, out, logs, raw):
         f = next(f for f, x in emb.items() if x == atom)
         has_spawned = any(not any(b in ws for ws in m.mapping.values()) for b in m.block_to.nodes)
         return bool(m.mapping.get(f)) or has_spawned
-    strict = {a for a in shared if all(contributes(j, a) for j in range(len(places)) if a in atomsets[j])}
-    info['overlap_noncontributing'] = bool(shared - strict)
+    strict = set(shared)       # F-C01-4 is fixed: every shared atom must be reported
+    info['overlap_noncontributing'] = any(not contributes(j, a) for a in shared for j in range(len(places)) if a in atomsets[j])
     if strict and (logging.WARNING, 'inconsistent-data') not in types:
         errs.append(('overlap_warned', 'atoms %r are in two placements and no inconsistent-data warning was raised'
                      % sorted(strict)[:5]))
